@@ -15,6 +15,7 @@ OBLIGATIONS = [
     "KafVerif.C04.old_livelock",
     "KafVerif.C04.fetch_progress_gapped",
     "KafVerif.C04.fetch_progress_after_loss",
+    "KafVerif.C04.fetch_progress_after_loss_run",
     "KafVerif.C04.search_lookup_misses_hole",
     "KafVerif.C03.handouts_stable",
     "KafVerif.C03.shared_buffer_unstable",
@@ -77,9 +78,9 @@ def layouts(ck, n):
 def run(ck):
     ck.partial = ("fetch_progress_reachable covers every reachable log whose accepted record sets declare their batch length; across a stored "
                   "record set with a zero length field the frame walk cannot advance (known finding undeclared-batch-length-stops-frame-walk); "
-                  "holes: fetch_progress_after_loss covers one loss+restart after any fault-free history and fetch_progress_gapped any log with the "
-                  "gapped invariant; preservation of that invariant by appends/flushes after the restart and by repeated loss rounds is covered by "
-                  "the holes stream (correspondence + monitor) only")
+                  "holes: fetch_progress_after_loss(_run) cover one loss+restart after any fault-free history and every later state up to the next "
+                  "restart (fetch_progress_gapped: any log with the gapped invariant); a second loss+restart round (orphans left in S3 by the first) "
+                  "is covered by the holes stream (correspondence + monitor) only")
     bins = ck.build_all()
     if bins is None:
         return
@@ -95,7 +96,7 @@ def run(ck):
     base.corpus(ck, bins, "C04")
     ok = base.run_streams(ck, bins, "C04", DRIVER, [
         ("layouts", "st", layouts(ck, 24 if ck.quick() else 200)),
-        ("holes", "st", base.holes_ops(ck, 10 if ck.quick() else 150)),
+        ("holes", "st", base.holes_ops(ck, 10 if ck.quick() else 80)),
         ("histories", "st", base.storage_ops(ck, ncases, nops)),
         ("broker", "br", base.broker_ops(ck, 6 if ck.quick() else 60, 60)),
     ])
